@@ -414,6 +414,55 @@ theorem txcount_is_emissions {P : Flow.Params} (ok : P.Ok) {s : Flow.St} (h : Fl
   have e := hT.txCnt k hk
   exact ⟨e, hT.txLim k _ e⟩
 
+/-- The deterministic output round that the harness runs against the real `runOutputOncePacket`
+    (`Flow.round`: the retransmission scan applies `Retx.step` to every segment of sendBuf in order, then
+    the send loop) takes only steps the relational model allows: it abandons exactly when a segment of
+    sendBuf has used up its budget (`Step.abandon`); otherwise no sequence number is lost, duplicated or
+    reordered between sendBuf and sendQueue, sendBuf stays below the capacity, and a first transmission
+    happens only with the remote window open, the congestion window not used up and
+    `sendBuf.Remaining() > 1` (the guards of `Step.sendNew`). -/
+theorem output_round_respects_flow (P : Flow.Params) (er el cwnd : Nat) (ex : Nat → Bool) (s : Flow.Snd)
+    (hs : s.dead = false) (hcap : s.buf.length < P.cap) :
+    ((Flow.round P er el cwnd ex s).1.dead = true ↔ ∃ g ∈ s.buf, P.limit ≤ g.r.txCount) ∧
+    ((Flow.round P er el cwnd ex s).1.dead = false →
+      (Flow.round P er el cwnd ex s).1.buf.map (·.seq) ++ (Flow.round P er el cwnd ex s).1.queue =
+        s.buf.map (·.seq) ++ s.queue ∧
+      (Flow.round P er el cwnd ex s).1.buf.length < P.cap ∧
+      (s.buf.length < (Flow.round P er el cwnd ex s).1.buf.length →
+        0 < s.rwnd ∧ s.buf.length < cwnd ∧ s.buf.length + 1 < P.cap)) := by
+  have hdi := Flow.scan_dead_iff P.limit er el ex s.buf
+  unfold Flow.round
+  simp only [hs, Bool.false_eq_true, if_false]
+  generalize hsc : Flow.scan P.limit er el ex s.buf = sc at hdi
+  obtain ⟨b, c, d⟩ := sc
+  simp only at hdi ⊢
+  cases d with
+  | true =>
+    simp only [if_true]
+    refine ⟨⟨fun _ => hdi.mp rfl, fun _ => by first | rfl | trivial⟩, fun h => ?_⟩
+    first | cases h | exact h.elim
+  | false =>
+    have hall : ∀ g ∈ s.buf, g.r.txCount < P.limit := by
+      intro g hg
+      by_cases h : P.limit ≤ g.r.txCount
+      · have := hdi.mpr ⟨g, hg, h⟩; cases this
+      · omega
+    have ha := Flow.scan_alive P.limit er el ex s.buf hall
+    rw [hsc] at ha
+    simp only at ha
+    have hbl : b.length = s.buf.length := by rw [ha.1]; simp
+    have hbs : b.map (·.seq) = s.buf.map (·.seq) := by rw [ha.1]; simp [Function.comp_def]
+    have sp := Flow.sendLoop_spec P.cap cwnd s.rwnd (s.queue.length + 1) b s.queue c (by omega)
+    simp only [Bool.false_eq_true, if_false]
+    generalize Flow.sendLoop P.cap cwnd s.rwnd (s.queue.length + 1) b s.queue c = r at sp
+    obtain ⟨b', q', t'⟩ := r
+    simp only at sp ⊢
+    obtain ⟨a1, a2, a3, a4, a5⟩ := sp
+    refine ⟨⟨fun h => ?_, fun h => ?_⟩, fun _ => ⟨by rw [a1, hbs], a2, fun hl => ?_⟩⟩
+    · first | exact h.elim | (rw [hs] at h; cases h)
+    · obtain ⟨g, hg, hl⟩ := h; have := hall g hg; omega
+    · rw [hbl] at a4 a5; exact a5 (by omega)
+
 /-! ### Structural ties of the flow-control model (regenerated from session.go, `Mieru.Gen.UdpFacts`) -/
 
 /-- `Flow.Step.recvAck` stores the window of EVERY ack: in `inputAck` the store of the advertised window
